@@ -356,6 +356,44 @@ fn main() {
                     Some(x) => x,
                     None => fail("anchor-lost", format!("{}: fn {:?} in {}", name, s(item, "ident"), file_rel)),
                 };
+                let mut block = block;
+                if let Some(al) = s(item, "in_async_let") {
+                    // the epilogue lives inside `let <al> = async move { .. };`: work on that block
+                    let mut inner = None;
+                    for st in block.stmts.iter() {
+                        if let Stmt::Local(l) = st {
+                            if let Pat::Ident(pi) = &l.pat {
+                                if pi.ident == al {
+                                    if let Some(init) = &l.init {
+                                        if let Expr::Async(a) = &*init.expr { inner = Some(a.block.clone()); }
+                                    }
+                                }
+                            }
+                        }
+                    }
+                    block = match inner {
+                        Some(b) => b,
+                        None => fail("anchor-lost", format!("{}: no `let {} = async ..` in fn {}", name, al, fsig.ident)),
+                    };
+                    fired.push(format!("R16'-inside-async-block-{}", al));
+                }
+                if let Some(ul) = s(item, "until_let") {
+                    // the epilogue ends before `let <ul> = ..`; `ret_expr` names what it hands on
+                    let mut cut = None;
+                    for (i, st) in block.stmts.iter().enumerate() {
+                        if let Stmt::Local(l) = st {
+                            let mut p = &l.pat;
+                            if let Pat::Type(t) = p { p = &t.pat; }
+                            if let Pat::Ident(pi) = p { if pi.ident == ul && cut.is_none() { cut = Some(i); } }
+                        }
+                    }
+                    match cut {
+                        Some(i) => block.stmts.truncate(i),
+                        None => fail("anchor-lost", format!("{}: no `let {} = ..` in fn {}", name, ul, fsig.ident)),
+                    }
+                    let re: Expr = syn::parse_str(&s(item, "ret_expr").expect("ret_expr")).unwrap();
+                    block.stmts.push(Stmt::Expr(re, None));
+                }
                 let tail = match block.stmts.last() {
                     Some(Stmt::Expr(e, None)) => e.clone(),
                     _ => fail("anchor-lost", format!("{}: fn {} has no tail expression", name, fsig.ident)),
@@ -363,6 +401,34 @@ fn main() {
                 let span = full_span(&tail);
                 let as_fn = s(item, "as_fn").unwrap_or(name.clone());
                 let mut body: Block = parse_quote! { { #tail } };
+                if item.get("after_expr_await").and_then(|x| x.as_bool()).unwrap_or(false) {
+                    // everything after the last statement of the form `<expr>.await;`
+                    let mut cut = None;
+                    for (i, st) in block.stmts.iter().enumerate() {
+                        if let Stmt::Expr(Expr::Await(_), Some(_)) = st { cut = Some(i); }
+                    }
+                    match cut {
+                        Some(i) => { body.stmts = block.stmts[i + 1..].to_vec(); }
+                        None => fail("anchor-lost", format!("{}: no `<expr>.await;` statement in fn {}", name, fsig.ident)),
+                    }
+                }
+                if let Some(mac) = s(item, "after_macro") {
+                    // everything after `let <pat> = <path>::<mac>!(..);`
+                    let mut cut = None;
+                    for (i, st) in block.stmts.iter().enumerate() {
+                        if let Stmt::Local(l) = st {
+                            if let Some(init) = &l.init {
+                                if let Expr::Macro(m) = &*init.expr {
+                                    if m.mac.path.segments.last().map(|x| x.ident == mac).unwrap_or(false) { cut = Some(i); }
+                                }
+                            }
+                        }
+                    }
+                    match cut {
+                        Some(i) => { body.stmts = block.stmts[i + 1..].to_vec(); }
+                        None => fail("anchor-lost", format!("{}: no `let .. = {}!(..)` in fn {}", name, mac, fsig.ident)),
+                    }
+                }
                 if let Some(after) = s(item, "after") {
                     // everything after `let <after> = ..;` belongs to the epilogue (not only the tail expression)
                     let mut cut = None;
@@ -388,6 +454,9 @@ fn main() {
                         let t: Type = syn::parse_str(p[1].as_str().unwrap()).unwrap();
                         params.push(quote! { #n: #t });
                     }
+                }
+                if item.get("world").and_then(|x| x.as_bool()).unwrap_or(false) {
+                    params.push(quote! { Tracked(w): Tracked<&mut World> });
                 }
                 let gen: TokenStream = s(item, "generics").map(|g| syn::parse_str(&g).unwrap()).unwrap_or_default();
                 let ret: Type = syn::parse_str(&s(item, "ret").expect("ret")).unwrap();
@@ -415,6 +484,16 @@ fn main() {
                             self.seen += 1;
                         }
                         for a in e.args.iter() { self.visit_expr(a); }
+                    }
+                    fn visit_expr_call(&mut self, e: &'ast ExprCall) {
+                        let nm = match &*e.func { Expr::Path(p) => p.path.segments.last().map(|s| s.ident.to_string()), _ => None };
+                        if nm.as_deref() == Some(self.call) {
+                            if self.seen == self.nth && self.found.is_none() {
+                                self.found = e.args.iter().nth(self.arg).map(|a| norm(a));
+                            }
+                            self.seen += 1;
+                        }
+                        syn::visit::visit_expr_call(self, e);
                     }
                 }
                 let mut af = ArgFinder { call: &call, nth, arg, seen: 0, found: None };
